@@ -14,7 +14,15 @@ import (
 // (seed, n) pair replays exactly.
 type R struct{ s uint64 }
 
-func New(seed uint64) *R { return &R{s: seed*0x9E3779B97F4A7C15 + 0x1234567} }
+func New(seed uint64) *R {
+	// The seed is mixed first, so that seeds s and s+1 give unrelated streams (with a plain
+	// s*gamma start state they would be the same stream shifted by one draw).
+	z := seed + 0x1234567
+	z = (z ^ (z >> 30)) * 0xBF58476D1CE4E5B9
+	z = (z ^ (z >> 27)) * 0x94D049BB133111EB
+	z ^= z >> 31
+	return &R{s: z*0x9E3779B97F4A7C15 + 0x632BE59BD9B4E019}
+}
 
 func (r *R) U64() uint64 {
 	r.s += 0x9E3779B97F4A7C15
